@@ -230,7 +230,15 @@ def handleApplyEdits (j : Json) : Except String Json := do
     pure ({ index := idx, target := t, new := n, comment := c, fzRaw := optPair e "fz_raw", fzClean := optPair e "fz_clean" } : Doc.HEdit)
   let s0 := Doc.Sess.open d0 author "DATE".toList
   let (s1, ap, sk) := Doc.applyEdits s0 edits
-  pure <| Json.mkObj [("doc", DriverDoc.docFullJ s1.doc), ("applied", toJson ap), ("skipped", toJson sk)]
+  -- hypotheses / conclusions of the C08 / C01 / C10 batch theorems evaluated on this case (non-vacuity counts)
+  let noneApplied := ap == 0 && !edits.isEmpty
+  let contentSame := (DriverDoc.docStoriesJ s1.doc).compress == (DriverDoc.docStoriesJ s0.doc).compress
+  let commentsGrow : Bool := decide (s0.doc.comments.length ≤ s1.doc.comments.length)
+  pure <| Json.mkObj [("doc", DriverDoc.docFullJ s1.doc), ("applied", toJson ap), ("skipped", toJson sk),
+    ("concl", Json.mkObj [("hyp_none_applied", toJson noneApplied),
+      ("none_applied_and_content_same", toJson (noneApplied && contentSame)),
+      ("total_ok", toJson (ap + sk == edits.length)),
+      ("comments_only_grow", toJson commentsGrow)])]
 
 def handleReview (j : Json) : Except String Json := do
   let d0 ← DriverDoc.parseDoc (← j.getObjVal? "doc")
